@@ -9,6 +9,7 @@
 #include <stdint.h>
 #include <stdatomic.h>
 #include <unistd.h>
+#include <stdarg.h>
 #include <sys/mman.h>
 #include <signal.h>
 #include <errno.h>
@@ -22,9 +23,21 @@ struct obj { dispatch_data_t d; int refs; int nseg; struct seg s[MAXSEG]; int ok
 static struct obj O[MAXO]; static int nobj;
 static _Atomic int viol; static char vmsg[256];
 static void fail(const char *m, int a, int b){ if(!atomic_exchange(&viol,1)) snprintf(vmsg,sizeof vmsg,"%s %d %d",m,a,b); }
-static void on_destroy(int l){ int c = atomic_fetch_add(&destroyed[l],1); if(c) fail("destructor ran twice for leaf",l,c+1);
+// `destroyed[l]` is what the main thread waits for before it starts the next round (and re-uses the slot): it is set LAST
+static _Atomic int dstarted[MAXL];
+// ---- operation log for the replay through DataRc (dvdriver datarc): "C" new leaf object, "U" new object the harness does not
+// track a destructor for, "D <sources> / <leaf objects of the records>" derived object, "R o" retain, "L o" release,
+// "X o" the destructor of leaf object o ran, "E" end of round (everything released and awaited)
+#include <pthread.h>
+static char *logbuf; static size_t loglen, logcap; static pthread_mutex_t logm=PTHREAD_MUTEX_INITIALIZER; static int logging; static int oidx[MAXL];
+static void lg(const char *fmt, ...){ if(!logging) return; va_list ap; va_start(ap,fmt); pthread_mutex_lock(&logm);
+  if(loglen+4096>logcap){ logcap=logcap?logcap*2:(1<<20); logbuf=realloc(logbuf,logcap); }
+  loglen+=(size_t)vsnprintf(logbuf+loglen,4096,fmt,ap); pthread_mutex_unlock(&logm); va_end(ap); }
+static void on_destroy(int l){ unsigned char *b=lbuf[l]; size_t n=lsize[l]; int c = atomic_fetch_add(&dstarted[l],1); if(c){ fail("destructor ran twice for leaf",l,c+1); return; }
   for(int i=0;i<nobj;i++) if(O[i].refs>0 && O[i].ok) for(int k=0;k<O[i].nseg;k++) if(O[i].s[k].leaf==l) fail("destructor ran while a derived object is alive: leaf/object",l,i);
-  memset(lbuf[l],0xDD,lsize[l]); free(lbuf[l]); }
+  lg("X %d\n",oidx[l]); memset(b,0xDD,n); free(b); atomic_fetch_add(&destroyed[l],1); }
+static void lg_derive(int a, int b, struct obj *c){ if(!logging) return; char t[4096]; int n=0; n+=snprintf(t+n,sizeof t-(size_t)n,"D %d",a); if(b>=0) n+=snprintf(t+n,sizeof t-(size_t)n," %d",b); n+=snprintf(t+n,sizeof t-(size_t)n," /");
+  for(int k=0;k<c->nseg && n<4000;k++) n+=snprintf(t+n,sizeof t-(size_t)n," %d",oidx[c->s[k].leaf]); lg("%s\n",t); }
 static size_t osize(struct obj *o){ size_t n=0; for(int k=0;k<o->nseg;k++) n+=o->s[k].len; return n; }
 static int add(dispatch_data_t d){ if(nobj>=MAXO) return -1; O[nobj].d=d; O[nobj].refs=1; O[nobj].nseg=0; O[nobj].ok=1; return nobj++; }
 static void verify(struct obj *o){ // bytes through the public API must be the tracked segments
@@ -39,6 +52,11 @@ static void verify(struct obj *o){ // bytes through the public API must be the t
 static uint64_t pd_seed;
 static void pd_crash(int sig){ char b[200]; int n=snprintf(b,sizeof b,"VIOL seed=%llu the library crashed (signal %d) while releasing a buffer created with a predefined destructor (DISPATCH_DATA_DESTRUCTOR_MUNMAP / FREE)\n",(unsigned long long)pd_seed,sig); if(n>0) (void)!write(1,b,(size_t)n); _exit(1); }
 static int mapped(void *p, size_t n){ return msync(p,n,MS_ASYNC)==0 || errno!=ENOMEM; }
+// is the mapping at p still OURS (the pattern is there)? The address range may be re-used by an unrelated mapping (a new thread's
+// stack or arena) right after the library unmapped it: read through a pipe, which fails with EFAULT instead of faulting
+static int still_ours(unsigned char *p, int r){ int fd[2]; if(pipe(fd)) return 0; unsigned char v[16]; int ours=0;
+  if(write(fd[1],p,16)==16 && read(fd[0],v,16)==16){ ours=1; for(int i=0;i<16;i++) if(v[i]!=(unsigned char)(i*7+r)) ours=0; }
+  close(fd[0]); close(fd[1]); return ours; }
 static void predefined(int rounds){ signal(SIGILL,pd_crash); signal(SIGSEGV,pd_crash); signal(SIGABRT,pd_crash); long pg=sysconf(_SC_PAGESIZE);
   for(int r=0;r<rounds && !viol;r++){ int kind=(int)(rnd()%2); size_t n = kind? (size_t)pg*(1+rnd()%3) : 1+rnd()%4000; unsigned char *b;
     if(kind){ b=mmap(NULL,n,PROT_READ|PROT_WRITE,MAP_PRIVATE|MAP_ANONYMOUS,-1,0); if(b==MAP_FAILED) return; } else b=malloc(n);
@@ -52,34 +70,37 @@ static void predefined(int rounds){ signal(SIGILL,pd_crash); signal(SIGSEGV,pd_c
     __block int bad=0; dispatch_data_apply(sub,^bool(dispatch_data_t rg, size_t o, const void *p, size_t sz){ (void)rg; for(size_t i=0;i<sz;i++) if(((const unsigned char*)p)[i]!=(unsigned char)((off+o+i)*7+r)) bad=1; return true; });
     if(bad) fail("bytes of a buffer with a predefined destructor changed while a derived object is alive: round/kind",r,kind);
     dispatch_release(sub);
-    if(kind){ int gone=0; for(int w=0; w<2000 && !gone; w++){ if(!mapped(b,n)) gone=1; else usleep(500); }
+    if(kind){ int gone=0; for(int w=0; w<2000 && !gone; w++){ if(!mapped(b,n) || !still_ours(b,r)) gone=1; else usleep(500); }
       if(!gone) fail("a buffer with DISPATCH_DATA_DESTRUCTOR_MUNMAP was still mapped 1 s after everything derived from it had been released: round",r,0); } } }
 int main(int argc,char**argv){ uint64_t seed=argc>1?strtoull(argv[1],0,0):1; int rounds=argc>2?atoi(argv[2]):50; long ops=0, maxdepth=0;
+  logging = argc>3 && atoi(argv[3])==2;   // 2: record the operations for the replay through DataRc (and skip what the log cannot express)
   dispatch_queue_t dq = dispatch_queue_create("destructors", NULL);
-  for(int r=0;r<rounds && !viol;r++){ rs=seed*1000003+r; nobj=0; nleaf=0; memset(destroyed,0,sizeof destroyed);
+  for(int r=0;r<rounds && !viol;r++){ rs=seed*1000003+r; nobj=0; nleaf=0; memset(destroyed,0,sizeof destroyed); memset(dstarted,0,sizeof dstarted);
     int steps=20+rnd()%120;
     for(int st=0;st<steps;st++){ int k=rnd()%10; ops++;
       int live[MAXO], nl=0; for(int i=0;i<nobj;i++) if(O[i].refs>0) live[nl++]=i;
       if((k<3 || nl==0) && nleaf<MAXL && nobj<MAXO){ size_t n=1+rnd()%24; int l=nleaf++; lbuf[l]=malloc(n); lsize[l]=n; for(size_t i=0;i<n;i++) lbuf[l][i]=(unsigned char)rnd();
         int onq = rnd()%2; dispatch_data_t d=dispatch_data_create(lbuf[l],n, onq?dq:NULL, ^{ on_destroy(l); });
-        int o=add(d); O[o].nseg=1; O[o].s[0]=(struct seg){l,0,n}; }
+        int o=add(d); O[o].nseg=1; O[o].s[0]=(struct seg){l,0,n}; oidx[l]=o; lg("C\n"); }
       else if(k<5 && nl>=1 && nobj<MAXO){ struct obj *a=&O[live[rnd()%nl]], *b=&O[live[rnd()%nl]];
         if(a->nseg+b->nseg<=MAXSEG){ int o=add(dispatch_data_create_concat(a->d,b->d)); struct obj *c=&O[o]; c->ok=a->ok&&b->ok;
-          memcpy(c->s,a->s,sizeof(struct seg)*a->nseg); memcpy(c->s+a->nseg,b->s,sizeof(struct seg)*b->nseg); c->nseg=a->nseg+b->nseg; } }
+          memcpy(c->s,a->s,sizeof(struct seg)*a->nseg); memcpy(c->s+a->nseg,b->s,sizeof(struct seg)*b->nseg); c->nseg=a->nseg+b->nseg; lg_derive((int)(a-O),(int)(b-O),c); } }
       else if(k<7 && nl>=1 && nobj<MAXO){ struct obj *a=&O[live[rnd()%nl]]; size_t n=osize(a); size_t off=rnd()%(n+2), len=rnd()%(n+3);
         int o=add(dispatch_data_create_subrange(a->d,off,len)); struct obj *c=&O[o]; c->ok=a->ok; size_t p=0;
         size_t end = off>n? off : (len>n-off? n : off+len);
-        for(int q=0;q<a->nseg;q++){ size_t s0=p, s1=p+a->s[q].len; p=s1; size_t lo=s0>off?s0:off, hi=s1<end?s1:end; if(lo<hi) c->s[c->nseg++]=(struct seg){a->s[q].leaf,a->s[q].from+(lo-s0),hi-lo}; } }
-      else if(k==7 && nl>=1 && nobj<MAXO){ struct obj *a=&O[live[rnd()%nl]]; const void *p; size_t n; dispatch_data_t m=dispatch_data_create_map(a->d,&p,&n);
+        for(int q=0;q<a->nseg;q++){ size_t s0=p, s1=p+a->s[q].len; p=s1; size_t lo=s0>off?s0:off, hi=s1<end?s1:end; if(lo<hi) c->s[c->nseg++]=(struct seg){a->s[q].leaf,a->s[q].from+(lo-s0),hi-lo}; } lg_derive((int)(a-O),-1,c); }
+      else if(k==7 && nl>=1 && nobj<MAXO){ struct obj *a=&O[live[rnd()%nl]]; if(logging && a->nseg>1) continue;   /* a flattening map copies into a buffer of the library's own: not tracked in the log */
+        const void *p; size_t n; dispatch_data_t m=dispatch_data_create_map(a->d,&p,&n);
         int o=add(m); struct obj *c=&O[o]; *c=*a; c->d=m; c->refs=1; // a map keeps its source bytes alive or copies them: track as dependent (conservative for the oracle only if it shares); mark not-checked for the alive test when it is a copy
-        if(n!=osize(a)) fail("map size",(int)n,(int)osize(a)); c->ok = (a->nseg<=1) ? a->ok : 0; }
-      else if(k==8 && nl>=1){ struct obj *a=&O[live[rnd()%nl]]; if(a->refs<5){ dispatch_retain(a->d); a->refs++; } }
-      else if(nl>=1){ struct obj *a=&O[live[rnd()%nl]]; verify(a); a->refs--; dispatch_release(a->d); }
+        if(n!=osize(a)) fail("map size",(int)n,(int)osize(a)); c->ok = (a->nseg<=1) ? a->ok : 0; lg_derive((int)(a-O),-1,c); }
+      else if(k==8 && nl>=1){ struct obj *a=&O[live[rnd()%nl]]; if(a->refs<5){ dispatch_retain(a->d); a->refs++; lg("R %d\n",(int)(a-O)); } }
+      else if(nl>=1){ struct obj *a=&O[live[rnd()%nl]]; verify(a); a->refs--; lg("L %d\n",(int)(a-O)); dispatch_release(a->d); }
       if(nl>maxdepth) maxdepth=nl; }
     for(int i=0;i<nobj;i++){ if(O[i].refs>0) verify(&O[i]); }
-    for(int i=0;i<nobj;i++){ while(O[i].refs>0){ O[i].refs--; dispatch_release(O[i].d); } }
+    for(int i=0;i<nobj;i++){ while(O[i].refs>0){ O[i].refs--; lg("L %d\n",i); dispatch_release(O[i].d); } }
     dispatch_sync(dq, ^{}); for(int t=0;t<200;t++){ int all=1; for(int l=0;l<nleaf;l++) if(!destroyed[l]) all=0; if(all) break; dispatch_sync(dq, ^{}); usleep(1000); }
-    for(int l=0;l<nleaf;l++) if(destroyed[l]!=1) fail("destructor count != 1 after all releases: leaf/count",l,destroyed[l]); }
-  if(!viol){ pd_seed=seed; rs=seed*77+5; predefined(rounds); }
+    for(int l=0;l<nleaf;l++) if(destroyed[l]!=1) fail("destructor count != 1 after all releases: leaf/count",l,destroyed[l]);
+    lg("E\n"); }
+  if(!viol && !(argc>3 && atoi(argv[3])!=1)){ pd_seed=seed; rs=seed*77+5; predefined(rounds); }
   if(viol){ printf("VIOL seed=%llu %s\n",(unsigned long long)seed,vmsg); return 1; }
-  printf("ok rounds=%d ops=%ld maxlive=%ld\n",rounds,ops,maxdepth); return 0; }
+  printf("ok rounds=%d ops=%ld maxlive=%ld\n",rounds,ops,maxdepth); if(logging && logbuf) fwrite(logbuf,1,loglen,stdout); return 0; }
